@@ -8,10 +8,19 @@ Driver commands of property C01 (core Lean only).  Command names start with "c01
                              ops = comma-separated  r<len> | b   (Read with len(p)=<len>, ReadByte)
       -> comma-separated  <bytes returned>:<index of the first returned byte in the flat data or ->:<1 if io.EOF else 0>
          or "newreader-eof" when the file has no member
+  c01.readstream <streamhex> <table>
+      Member.readStream (the reader half of `roundtrip`: gzip header parse, expectedMemberSize, BSIZE-delimited
+      buffer, inflate, CRC-32/ISIZE check, nothing left over) on the bytes the implementation produced.
+      The DEFLATE decoder is supplied by the harness as a finite table keyed by content (entries
+      "start:len:used:payloadhex": the byte string stream[start, start+len) inflates to payload using `used` bytes);
+      a byte string that is not in the table does not inflate.  CRC-32 is computed here.
+      -> "<lengths of the non-empty decoded blocks>|<number of blocks>|<hash of the concatenated data>"  or  "none"
 -/
 import Hts.Drv.Util
 import Hts.Model.BgzfWriter
 import Hts.Model.BgzfSeqRead
+import Hts.Model.Member
+import Hts.Drv.C10
 namespace Hts.Drv.C01
 open Hts.Drv Hts.Model
 
@@ -44,8 +53,31 @@ def showRead (r : List Nat × Bool) : String :=
   let first := match r.1 with | [] => "-" | a :: _ => toString a
   s!"{r.1.length}:{first}:{if r.2 then 1 else 0}"
 
+/-- table entry: (start, len, used, payload) -/
+def parseInfl (s : String) : Option (Nat × Nat × Nat × List UInt8) :=
+  match s.splitOn ":" with
+  | [st, ln, used, pay] => do
+    some ((← parseNat st), (← parseNat ln), (← parseNat used), (← parseHex pay).map UInt8.ofNat)
+  | _ => none
+
+def streamCodec (stream : List UInt8) (tbl : List (Nat × Nat × Nat × List UInt8)) : Member.CodecFns :=
+  let keyed := tbl.filterMap fun (st, ln, used, pay) =>
+    if st + ln ≤ stream.length then some ((stream.drop st).take ln, pay, used) else none
+  { deflate := fun _ => []
+    inflate := fun bs => (keyed.find? (fun p => p.1 == bs)).map (·.2)
+    crc32 := Hts.Drv.C10.crc32
+    xfl := 0 }
+
 def handle (cmd : String) (args : List String) : Option String :=
   match cmd, args with
+  | "c01.readstream", [sh, tb] => do
+    let stream := (← parseHex sh).map UInt8.ofNat
+    let tbl ← (splitList tb).mapM parseInfl
+    match Member.readStream (streamCodec stream tbl) stream with
+    | none => some "none"
+    | some blocks =>
+      let ne := blocks.filter (fun b => !b.isEmpty)
+      some s!"{joinOr (ne.map (fun b => toString b.length))}|{blocks.length}|{Hts.Drv.C10.dataHash blocks.flatten}"
   | "c01.write", [ops] => do
     let ops ← (splitList ops).mapM parseWOp
     let (s, rs) := BgzfWriter.run BgzfWriter.BlockSize BgzfWriter.blockSize_pos BgzfWriter.State.init ops
